@@ -46,6 +46,9 @@ Definition mask (e : bytes) : bytes :=
 (* what the random source returns for one key: 16 bytes *)
 Definition wf_entropy (e : bytes) : bool := Nat.eqb (length e) 16 && all_bytes e.
 
+(* n copies of one byte: compact notation the harness uses for long prefixes *)
+Definition rep (n : nat) (c : N) : bytes := repeat c n.
+
 (* ---- prefix, extension, key ---------------------------------------------- *)
 Definition default_prefix : bytes := Eval compute in str "vgi-rpc/".
 Definition enc_zstd : bytes := Eval compute in str "zstd".
